@@ -6,6 +6,7 @@
 -/
 import Cobweb.Proofs.CtlStep
 import Cobweb.Proofs.Frames
+import Cobweb.Proofs.Counts
 
 namespace Cobweb.C13
 
@@ -49,6 +50,46 @@ theorem startBody_reports (s : St) (sys : Nat) (k : Kind) :
 theorem no_concurrent_instance {p : Prog} {h : Hist} {s0 s : St} (hc : Ctl s0) (hr : Reach p h s0 s) (sys : Nat)
     (hrun : sys ∈ running s.stack) (hal : s.alive sys = true) : s.storage sys = some false :=
   (ctl_reach p h hc hr).runningTaken sys hrun hal
+
+/-- **One persistent counter per system, for every execution**: in every state reachable from the empty world the run
+    counter held by system `sys` (its `Local` / the counter captured by its closure) equals the number of bodies of `sys`
+    that have started — it was never reset, re-created or advanced by another system's run, whatever nesting,
+    postponement and interleaving happened. -/
+theorem counter_is_number_of_runs {p : Prog} {h : Hist} {s : St} (hr : Reach p h ({} : St) s) (sys : Nat) :
+    (s.info sys).nruns = nBody sys s :=
+  (runs_reach p h ctl_default runs_default hr).cnt sys
+
+/-- **Every run sees the state left by the previous run of the same system**: every `body sys r _` event of every
+    reachable trace carries `r` = the number of `body sys` events before it (the trace is newest first, so "before it" is
+    the tail). In particular the k-th run of a system reads k − 1, for runs postponed by recursion and runs
+    interleaved with nested runs of other systems alike. -/
+theorem run_label_counts_earlier_runs {p : Prog} {h : Hist} {s : St} (hr : Reach p h ({} : St) s) : BodyIdx (ct s) :=
+  (runs_reach p h ctl_default runs_default hr).idx
+
+/-- A system that does not exist yet has not run. -/
+theorem unborn_never_ran {p : Prog} {h : Hist} {s : St} (hr : Reach p h ({} : St) s) (sys : Nat) (hs : s.nextEnt ≤ sys) :
+    nBody sys s = 0 :=
+  (runs_reach p h ctl_default runs_default hr).fresh sys hs
+
+/-- Unfolding of `BodyIdx` at one event, as a readable statement. -/
+theorem bodyIdx_split {l : List Ev} (hl : BodyIdx l) (l1 l2 : List Ev) (sys r : Nat) (o : Obs)
+    (hsplit : l = l1 ++ Ev.body sys r o :: l2) : r = l2.countP (isBodyOf sys) := by
+  induction l1 generalizing l with
+  | nil => subst hsplit; exact hl.1 sys r o rfl
+  | cons e l1 ih => subst hsplit; exact ih hl.2 rfl
+
+example : Runs ({} : St) := runs_default
+
+/-- Non-vacuity: a system that re-runs itself once (the second run is postponed and replayed): two bodies, counter 2,
+    labels 0 and 1. -/
+def demoProg : Prog := fun sys i s => if i = 0 ∧ (s.info sys).nruns = 1 then some (.run sys) else none
+def demoHist : Hist :=
+  { op := fun t _ => if t = 0 then some .acts else none,
+    act := fun _ i _ => match i with | 0 => some (.spawnSys 0 false) | 1 => some (.run 0) | _ => none }
+
+example : nBody 0 (exec demoProg demoHist 80 {}) = 2 ∧ ((exec demoProg demoHist 80 {}).info 0).nruns = 2 ∧
+    ((ct (exec demoProg demoHist 80 {})).filterMap (fun e => match e with | .body s r _ => some (s, r) | _ => none)) =
+      [(0, 1), (0, 0)] := by decide
 
 example : ((startBody ({} : St) 3 .plain).info 3).nruns = 1 := (startBody_counts {} 3 .plain).1
 
